@@ -36,6 +36,26 @@ ASSERT_ARGUMENTS = {
         "the search starts at decl.type with parent = decl; a Typename found at the first step would need decl.type to be that Typename, but "
         "_build_declarations always wraps specifiers in a TypeDecl chain, so at least one step has been taken",
 }
+
+
+def _prev_stmt_is(call_text):
+    def chk(stmt, fn):
+        par = getattr(stmt, "_parent", None)
+        for field in ("body", "orelse"):
+            b = getattr(par, field, None)
+            if isinstance(b, list):
+                for i, x in enumerate(b):
+                    if x is stmt:
+                        return i > 0 and isinstance(b[i - 1], ast.Expr) and norm(S.unparse(b[i - 1].value)).replace('"', "'") == call_text
+        return False
+    return chk
+
+
+# recorded assert arguments that rest on a structural fact: the fact is re-checked on every run
+ASSERT_PRECONDITIONS = {
+    ("CParser._parse_direct_abstract_declarator", "$(c_ast.FuncDecl(args=$, type=c_ast.TypeDecl(None, None, None, None), coord=self._tok_coord($)) | self._parse_abstract_array_base() | self._parse_abstract_declarator_opt()) is not None"):
+        (_prev_stmt_is("self._expect('RPAREN')"), "the statement just before the assert is self._expect('RPAREN')"),
+}
 # constant-index subscripts / other partial operations, keyed by (function, alpha-normalised expression)
 PARTIAL_ARGUMENTS = {
     ("CParser._build_declarations", "decls[0]"): "callers pass a literal one-element list or the non-empty result of a declarator-list production",
@@ -257,6 +277,9 @@ def check(ctx):
                     how = "automatic: every call site passes a freshly constructed c_ast.Switch"
             elif (q, cond) in ASSERT_ARGUMENTS:
                 how = "argument: " + ASSERT_ARGUMENTS[(q, cond)]
+                pre = ASSERT_PRECONDITIONS.get((q, cond))
+                if pre is not None and not pre[0](n, fn):
+                    how = None       # the structural fact the argument rests on ( + pre[1] + ) no longer holds
                 if q == "CParser._parse_abstract_declarator_opt":
                     if not pointer_entries or not all(e is not None and e[0] <= {"TIMES"} for e in pointer_entries):
                         how = None
@@ -305,6 +328,9 @@ def check(ctx):
                 ctx.oblige("R-C06.3", f"{q}: {alpha_norm(n)}", ok, sample={"rule": "R-C06.3", "function": q, "construct": alpha_norm(n), "classes lacking it": missing, "verdict": "guarded / total" if ok else "UNGUARDED"})
                 if not ok:
                     viol("R-C06.3", mod, q, n, f"hetero:{q}:{alpha_norm(n)}", f"`{alpha_norm(n)}` reads .{n.attr} of a type-specifier list element, but the list can hold {missing} nodes which have no such attribute, and no isinstance test guards the access: AttributeError escapes")
+    # (c0) mechanical backing of the recorded argument "the scope stack is never empty"
+    from . import c04
+    c04.scope_stack_never_empty(ctx, "R-C06.3")
     # (c) constant-index subscripts and dictionary lookups by table
     for mod, q, fn in funcs:
         for n in ast.walk(fn):
